@@ -36,6 +36,8 @@ pub enum What {
     Op(Kind, u8),
     /// (hold-for-duration D vk)
     Hold,
+    /// (hold-for-duration D2 vk) with the longer duration D2 = 3 D + 7
+    HoldLong,
     /// (on-idle T kind vk)
     OnIdle(Kind),
 }
@@ -79,8 +81,13 @@ fn what_action_text(vk: u8, w: What, d: u16, t: u16) -> String {
         What::Op(k, 2) => format!("(macro (on-press {} vk{vk}))", kind_cfg(k)),
         What::Op(..) => "XX".into(),
         What::Hold => format!("(hold-for-duration {d} vk{vk})"),
+        What::HoldLong => format!("(hold-for-duration {} vk{vk})", long_d(d)),
         What::OnIdle(k) => format!("(on-idle {t} {} vk{vk})", kind_cfg(k)),
     }
+}
+
+fn long_d(d: u16) -> u16 {
+    3 * d + 7
 }
 
 fn build(c: &VCase) -> Layout18 {
@@ -148,6 +155,7 @@ impl Case for VCase {
             "ops": self.ops.iter().map(|o| match o.what {
                 What::Op(k, s) => json!({"gap": o.gap, "vk": o.vk, "op": kind_json(k), "src": SRC_NAMES[s as usize % 5]}),
                 What::Hold => json!({"gap": o.gap, "vk": o.vk, "op": "hold-for-duration"}),
+                What::HoldLong => json!({"gap": o.gap, "vk": o.vk, "op": "hold-for-duration-long"}),
                 What::OnIdle(k) => json!({"gap": o.gap, "vk": o.vk, "op": "on-idle", "then": kind_json(k)}),
             }).collect::<Vec<_>>()})
     }
@@ -156,6 +164,7 @@ impl Case for VCase {
         for o in v["ops"].as_array()? {
             let what = match o["op"].as_str()? {
                 "hold-for-duration" => What::Hold,
+                "hold-for-duration-long" => What::HoldLong,
                 "on-idle" => What::OnIdle(kind_from(o["then"].as_str()?)?),
                 k => What::Op(kind_from(k)?, SRC_NAMES.iter().position(|s| Some(*s) == o["src"].as_str())? as u8),
             };
@@ -241,7 +250,7 @@ struct Trace {
 
 fn run(c: &VCase, lay: &Layout18, ins: &[(u64, In)]) -> Result<Trace, String> {
     let mut sim = Sim::new(&lay.text)?;
-    let end = ins.last().map(|(t, _)| *t).unwrap_or(0) + c.d as u64 + 3 * c.t_idle as u64 + 120;
+    let end = ins.last().map(|(t, _)| *t).unwrap_or(0) + long_d(c.d) as u64 + 3 * c.t_idle as u64 + 120;
     let mut idle = vec![];
     let mut layer1 = vec![];
     let mut next = 0usize;
@@ -422,14 +431,15 @@ fn model(c: &VCase, lay: &Layout18, ins: &[(u64, In)], idle: &[bool], end: u64, 
             let is_macro = c.actions[v] % 3 == 2;
             match w {
                 What::Op(kind, _) => apply(kind, vk, &pressed, is_macro, &mut queue),
-                What::Hold => {
+                What::Hold | What::HoldLong => {
+                    let dur = if w == What::HoldLong { long_d(c.d) } else { c.d } as u32;
                     let tie = just_expired[v] == Some(k - 1);
                     if tie {
                         ex.classes.push("hold-retriggered-at-expiry");
                     }
                     if pending[v].is_some() {
                         ex.classes.push("hold-rearmed");
-                        pending[v] = Some(c.d as u32);
+                        pending[v] = Some(dur);
                         // "keeps the key pressed until the time has passed since its most recent
                         // activation": if something released it meanwhile it is pressed again
                         let press_queued = queue.iter().any(|q| matches!(q, Q::Vk(x, true) if *x == vk));
@@ -444,10 +454,10 @@ fn model(c: &VCase, lay: &Layout18, ins: &[(u64, In)], idle: &[bool], end: u64, 
                         if let Some(pos) = queue.iter().position(|q| matches!(q, Q::Vk(x, false) if *x == vk)) {
                             queue.remove(pos);
                         }
-                        pending[v] = Some(c.d as u32);
+                        pending[v] = Some(dur);
                     } else {
                         queue.push_back(Q::Vk(vk, true));
-                        pending[v] = Some(c.d as u32);
+                        pending[v] = Some(dur);
                     }
                 }
                 What::OnIdle(kind) => {
@@ -469,7 +479,11 @@ fn model(c: &VCase, lay: &Layout18, ins: &[(u64, In)], idle: &[bool], end: u64, 
             waiting.clear();
             ex.classes.push("on-idle-fired");
         }
-        // 5. hold-for-duration countdown
+        // 5. hold-for-duration countdown (an unordered map: two expiries in one tick are queued
+        // in an unspecified order)
+        if (0..n).filter(|v| pending[*v] == Some(1)).count() >= 2 {
+            ex.ambiguous = true;
+        }
         for v in 0..n {
             if let Some(d) = pending[v] {
                 let d = d.saturating_sub(1);
@@ -539,6 +553,7 @@ fn judge_case(c: &VCase) -> Verdict {
                 .map(|(o, t)| match o.what {
                     What::Op(k, s) => format!("@{t} {}:{} vk{}", SRC_NAMES[s as usize % 5], kind_json(k), o.vk),
                     What::Hold => format!("@{t} hold-for-duration vk{}", o.vk),
+                    What::HoldLong => format!("@{t} hold-for-duration({}) vk{}", long_d(c.d), o.vk),
                     What::OnIdle(k) => format!("@{t} on-idle:{} vk{}", kind_json(k), o.vk),
                 })
                 .collect::<Vec<_>>()
@@ -550,7 +565,7 @@ fn judge_case(c: &VCase) -> Verdict {
     let a = model(c, &lay, &ins, &tr.idle, tr.end, false, true);
     let b = model(c, &lay, &ins, &tr.idle, tr.end, true, true);
     if a.ambiguous {
-        return Verdict::discard("unordered-on-idle-entries-or-overlapping-macro-runs");
+        return Verdict::discard("unordered-simultaneous-timers-or-overlapping-macro-runs");
     }
     let matches = |e: &Expect| e.keys == observed && e.layer1 == tr.layer1;
     // F45: a hold-for-duration re-triggered while its countdown is still running, after
@@ -594,6 +609,7 @@ fn judge_case(c: &VCase) -> Verdict {
             What::Op(_, 3) => "src:direct",
             What::Op(_, _) => "src:sequence",
             What::Hold => "hold-for-duration",
+            What::HoldLong => "hold-for-duration-long",
             What::OnIdle(_) => "on-idle",
         });
     }
@@ -618,11 +634,11 @@ impl TypedProp for C18 {
     fn info(&self) -> PropInfo {
         PropInfo {
             level: "exploration",
-            rule: "configs: 1-3 virtual keys, each a key, (layer-while-held l1) or a one-key macro; one physical key per distinct operation: (on-press|on-release OP vk), (macro (on-press OP vk)), (hold-for-duration D vk), (on-idle T OP vk), OP in press/release/tap/toggle; a sequence leader and one defseq per virtual key; rapid-event-delay 0. Histories: 1-13 operations >= 5 ms apart (>= 9 ms before a typed sequence), gaps drawn from small values, D-1/D/D+1, T-1/T/T+1 and long pauses, each operation through one of five sources (on-press, on-release, macro item, direct handle_fakekey_action call as the TCP server makes it, completed sequence = tap); run through the processing-loop emulation (can_block_update_idle_waiting every ms). Oracle: a reference model - the event queue handled one event per tick, a pressed flag per virtual key, press/release/tap/toggle on that flag (toggle decided when the operation is issued), hold-for-duration with a countdown of D ticks from its most recent activation (re-armed while it runs), on-idle firing once when kanata's own is_idle has held for T consecutive loop iterations since the last input or activation - predicts every OS transition of the virtual keys' output keys to the tick, and the layer-1 flag after every tick; they must be equal. Non-trivial: a toggle, a re-armed hold-for-duration or a fired on-idle occurs. Distinct: hash of the case.".into(),
+            rule: "configs: 1-3 virtual keys, each a key, (layer-while-held l1) or a one-key macro; one physical key per distinct operation: (on-press|on-release OP vk), (macro (on-press OP vk)), (hold-for-duration D vk), (hold-for-duration 3D+7 vk), (on-idle T OP vk), OP in press/release/tap/toggle; a sequence leader and one defseq per virtual key; rapid-event-delay 0. Histories: 1-13 operations >= 5 ms apart (>= 9 ms before a typed sequence), gaps drawn from small values, D-1/D/D+1, T-1/T/T+1 and long pauses, each operation through one of five sources (on-press, on-release, macro item, direct handle_fakekey_action call as the TCP server makes it, completed sequence = tap); run through the processing-loop emulation (can_block_update_idle_waiting every ms). Oracle: a reference model - the event queue handled one event per tick, a pressed flag per virtual key, press/release/tap/toggle on that flag (toggle decided when the operation is issued), hold-for-duration with a countdown of D ticks from its most recent activation (re-armed while it runs), on-idle firing once when kanata's own is_idle has held for T consecutive loop iterations since the last input or activation - predicts every OS transition of the virtual keys' output keys to the tick, and the layer-1 flag after every tick; they must be equal. Non-trivial: a toggle, a re-armed hold-for-duration or a fired on-idle occurs. Distinct: hash of the case.".into(),
             assumptions: vec![
                 "a macro virtual key has no held state: each press event runs it once, release does nothing, toggle always presses".into(),
                 "kanata's is_idle() (the subject of C07) is taken as the definition of 'idle' for on-idle".into(),
-                "cases in which two on-idle entries fire in the same tick (unordered set) or two runs of one macro overlap are discarded".into(),
+                "cases in which two on-idle entries fire, or two hold-for-duration countdowns end, in the same tick (unordered collections) or two runs of one macro overlap are discarded".into(),
             ],
             extra: BTreeMap::new(),
         }
@@ -630,8 +646,8 @@ impl TypedProp for C18 {
     fn plan(&self, tier: Tier) -> Plan {
         Plan {
             n_cases: match tier {
-                Tier::Quick => 100_000,
-                Tier::Thorough => 3_000_000,
+                Tier::Quick => 400_000,
+                Tier::Thorough => 12_000_000,
             },
             exhaustive: false,
             distinct_by_construction: false,
@@ -647,6 +663,7 @@ impl TypedProp for C18 {
         let what = prop_oneof![
             8 => (kind.clone(), 0u8..5).prop_map(|(k, s)| What::Op(if s == 4 { Kind::Tap } else { k }, s)),
             3 => Just(What::Hold),
+            1 => Just(What::HoldLong),
             2 => kind.prop_map(What::OnIdle),
         ];
         (
